@@ -230,7 +230,7 @@ func TestVerif_C13_stress(t *testing.T) {
 			if !ok {
 				continue // finished
 			}
-			if !g.lockWait() || g.where() == "" {
+			if !g.blocked() {
 				return false, fmt.Sprintf("%s is in state %q", name, g.state)
 			}
 			n++
